@@ -60,6 +60,29 @@ Theorem C14_unknown_iff : forall get tn raw t,
    decode get t raw = Err EUnknownCodec \/ exists rest, decode get t raw = Ok (VUnknown raw, rest)).
 Proof. exact unknown_iff. Qed.
 
+(* The property's third clause speaks of a type that INVOLVES a name without codec; the implementation (and this model of it)
+   notices such a name only when decoding REACHES it.  Where it does not -- an empty sequence<foo>, a variant whose taken
+   alternative is known -- the value is an ordinary one and a read followed by a save re-encodes the known parts: a set that
+   lists an element twice loses the repetition.  This is the known finding C14 unknown-name-not-reached (recorded, not repaired). *)
+Fixpoint involves_unknown (t : tree) : bool :=
+  match t with
+  | T nm subs => (match lookup_codec spec_table nm with None => true | Some _ => false end) || existsb involves_unknown subs
+  end.
+
+Theorem C14_unknown_not_reached_refuted :
+  exists get tn t raw t1 t2 out,
+    parse_type tn = Ok t /\ involves_unknown t = true /\
+    step get (load tn raw) Read = Ok t1 /\ save get t1 = Ok (t2, out) /\
+    fst out = tn /\ snd out <> raw.
+Proof.
+  exists (fun _ : Z => None), (str "tuple<set<uint8_t>,sequence<foo>>").
+  eexists. exists [2;0;0;0;0;0;0;0; 5; 5; 0;0;0;0;0;0;0;0].
+  eexists. eexists. eexists.
+  split; [vm_compute; reflexivity|]. split; [vm_compute; reflexivity|].
+  split; [vm_compute; reflexivity|]. split; [vm_compute; reflexivity|].
+  split; [vm_compute; reflexivity|]. vm_compute. discriminate.
+Qed.
+
 (* non-vacuity: a set listing an element twice is verbatim if untouched and canonicalised once read;
    a partially unknown type keeps arbitrary bytes after a read *)
 Example C14_example :
@@ -82,3 +105,4 @@ Print Assumptions C14_touched_reencoded.
 Print Assumptions C14_retyped_reencoded.
 Print Assumptions C14_unknown_sticky.
 Print Assumptions C14_unknown_iff.
+Print Assumptions C14_unknown_not_reached_refuted.
